@@ -172,6 +172,34 @@ func compareScalar(st *scalarT, x, y ad.ConstScalar, carriesDerivs bool) (cls, d
 	return "", ""
 }
 
+// carriedSpec reduces the derivative part of a Real scalar to what the JSON format carries
+// (see Assume): the gradient iff one of its entries is non-zero, the Hessian iff one of its
+// entries is non-zero; order and N of all-zero derivative blocks are not part of the
+// format. The use battery compares the restored scalar with the original in this form.
+func carriedSpec(r *realSpec) *realSpec {
+	if r == nil {
+		return nil
+	}
+	g, h := false, false
+	if r.Order >= 1 {
+		for _, x := range r.Grad {
+			g = g || x != 0
+		}
+	}
+	if r.Order >= 2 {
+		for _, x := range r.Hess {
+			h = h || x != 0
+		}
+	}
+	switch {
+	case h:
+		return &realSpec{Order: 2, N: r.N, Grad: r.Grad, Hess: r.Hess}
+	case g:
+		return &realSpec{Order: 1, N: r.N, Grad: r.Grad}
+	}
+	return &realSpec{}
+}
+
 func scalarFamily(st *scalarT) string {
 	if st.Const {
 		return "const-scalar<" + st.Name + ">"
@@ -305,6 +333,13 @@ func runScalarRT(x *X, cs *Case) {
 			continue
 		}
 		x.c.Outcome("scalar-json:equal")
+		mk := func() trace { return useScalar(t.st, buildScalar(t.st, v, carriedSpec(cs.Real))) }
+		if step, ucls, detail := useVerdict(x, mk(), useScalar(t.st, y), useTol(t.st.Kind), mk); ucls != "" {
+			x.violate(kpre+"any value|receiver="+cs.Recv+"|use of the restored object: "+step+" → "+ucls,
+				fmt.Sprintf("%s(%s) → %q → %s: the restored scalar reads equal to the original but does not behave like it in step `%s' of the use battery: %s", st.Name, v.Name, enc, t.name, step, detail), cs)
+			continue
+		}
+		x.c.Outcome("scalar-json:behaves like the original")
 	}
 	if cs.Val == 1 && cs.Recv == "fresh" && (cs.Real == nil || cs.Real.Order == 2) {
 		x.c.Sample(map[string]any{"type": st.Name, "value": v.Name, "real": cs.Real, "json": string(enc)})
